@@ -129,7 +129,18 @@ impl XmlConverter {
                 .to_boxed());
             }
             if let Some(name) = name {
+                // The namespace is declared with a plain xmlns attribute. The
+                // writers own namespace support copies uris verbatim and
+                // drops a declaration that any ancestor made before, even
+                // when an element in between has overridden it.
+                let ns_attr_name = match ns {
+                    Some((prefix, _)) if !prefix.is_empty() => format!("xmlns:{}", prefix),
+                    _ => "xmlns".to_string(),
+                };
                 let mut start = XmlEvent::start_element(name);
+                if let Some((_, uri)) = ns {
+                    start = start.attr(ns_attr_name.as_str(), Self::check_chars(uri)?);
+                }
                 if let Some(attrs) = attrs {
                     for (name, val) in attrs.iter() {
                         if val.is_empty() {
@@ -139,16 +150,6 @@ impl XmlConverter {
                             name.as_ref(),
                             Self::check_chars(Self::get_str_val(val.as_ref())?)?,
                         );
-                    }
-                }
-                if let Some((prefix, uri)) = ns {
-                    // The xml writer emits namespace uris verbatim, unlike
-                    // attribute values, so we have to escape them ourselves.
-                    let uri = xml::escape::escape_str_attribute(Self::check_chars(uri)?).into_owned();
-                    if prefix.is_empty() {
-                        start = start.default_ns(uri);
-                    } else {
-                        start = start.ns(prefix, uri);
                     }
                 }
                 w.write(start)?;
